@@ -376,7 +376,7 @@ func genDeliveryScenario(g *prng.R) (*sim.Scenario, M) {
 func init() {
 	checks["c02"] = func(id string) int {
 		r := newRun(id, "exploration")
-		r.Rule = "seeded random federation graphs: 2..10 remote actors (reachable / unreachable / non-JSON / unknown type / 404), 0..6 remote collections and pages with nested and cyclic membership, recipients in the five addressing properties as IRIs or embedded actors with duplicates, Public in both spellings, the sender, a local actor, application-stored inboxes for a subset of addressed actors (one scenario in six: for all of them, so that nothing is left to dereference; the sender, when addressed, has its own inbox stored), depth limit 1..4, via client POST and Send; the BatchDeliver recipient list and every Dereference are compared with a reference model computed from the scenario JSON; non-trivial = model expects >=1 inbox and >=1 skipped or expanded recipient; distinct by scenario"
+		r.Rule = "seeded random federation graphs: 2..10 remote actors (reachable / unreachable / non-JSON / unknown type / 404), 0..6 remote collections and pages with nested and cyclic membership, recipients in the five addressing properties as IRIs or embedded actors with duplicates, Public in both spellings, the sender, a local actor, application-stored inboxes for a subset of addressed actors (one scenario in six: for all of them, so that nothing is left to dereference; the sender, when addressed, has its own inbox stored), depth limit 1..4, via client POST and Send; the BatchDeliver recipient list and every Dereference are compared with a reference model computed from the scenario JSON; actor documents without a usable inbox, addressees and members without id, Public as a collection member; non-trivial = model expects >=1 inbox and >=1 skipped or expanded recipient; distinct by scenario"
 		r.Assumptions = []string{"actors with a stored inbox are placed only in the addressing properties, never as members of a remote collection", "Public is generated only in the addressing properties", "recipients that resolve to a known non-actor type are not generated"}
 		run := func(sc *sim.Scenario, act M) {
 			res := sim.Run(sc)
